@@ -55,6 +55,18 @@ func (p *Program) localRecordOverlay(current map[string][]byte) (map[string][]by
 				ps := p.Fset.PositionFor(pos, false)
 				return fmt.Sprintf("/*line %s:%d:%d*/", ps.Filename, ps.Line, ps.Column)
 			}
+			importNames := map[string]string{} // package path -> name in this file
+			for _, is := range f.Imports {
+				var pn *types.PkgName
+				if is.Name != nil {
+					pn, _ = info.Defs[is.Name].(*types.PkgName)
+				} else {
+					pn, _ = info.Implicits[is].(*types.PkgName)
+				}
+				if pn != nil && pn.Name() != "_" && pn.Name() != "." {
+					importNames[pn.Imported().Path()] = pn.Name()
+				}
+			}
 			idents := map[string]bool{}
 			ast.Inspect(f, func(n ast.Node) bool {
 				if id, ok := n.(*ast.Ident); ok {
@@ -257,13 +269,29 @@ func (p *Program) localRecordOverlay(current map[string][]byte) (map[string][]by
 				if !ok {
 					continue
 				}
-				// declaration
-				var zero []string
+				// declaration: `var v_f T_f` when the field types can be written with this file's import
+				// names (the SSA zero value is then a plain typed constant), else `v_f := (T{}).f`
+				var zero, typed []string
+				typesOK := true
 				for i := range names {
 					zero = append(zero, "("+c.typeText+"{})."+c.st.Field(i).Name())
+					ts := types.TypeString(c.st.Field(i).Type(), func(other *types.Package) string {
+						if other == pk.Types {
+							return ""
+						}
+						if n, ok := importNames[other.Path()]; ok {
+							return n
+						}
+						typesOK = false
+						return other.Name()
+					})
+					typed = append(typed, "var "+names[i]+" "+ts)
 				}
-				decl := strings.Join(names, ", ") + " := " + strings.Join(zero, ", ") + "; " +
-					strings.Repeat("_, ", len(names)-1) + "_ = " + strings.Join(names, ", ")
+				decl := strings.Join(names, ", ") + " := " + strings.Join(zero, ", ")
+				if typesOK {
+					decl = strings.Join(typed, "; ")
+				}
+				decl += "; " + strings.Repeat("_, ", len(names)-1) + "_ = " + strings.Join(names, ", ")
 				if c.lit != nil && len(c.lit.Elts) > 0 {
 					fields, fok := litFields(c.lit)
 					if !fok {
